@@ -509,7 +509,13 @@ class ProgGen:
             return self.stmt_assign(depth, env, loop_ctx=False)
         if typ == "int":
             op = r.choice(["+=", "-=", "*="])
-            rhs = str(r.randint(0, 3)) if op == "*=" else self.int_expr(env, 1)
+            if op == "*=":
+                # keep magnitudes bounded over many passes (AVR-sized ints; signed overflow is undefined in C++)
+                self.emit(depth, f"{v} = (abs({v}) * {r.randint(0, 3)}) % {r.choice([97, 251, 1000])}")
+                if self.chance(self.opts.probe_rate):
+                    self.probe(depth, env, [v])
+                return
+            rhs = self.int_expr(env, 1)
         elif typ == "float":
             op = r.choice(["+=", "-=", "*="])
             rhs = r.choice(["0.5", "2.0", "1.5"]) if op == "*=" else self.float_expr(env, 1)
